@@ -34,6 +34,11 @@ package keeper
 //@   ensures acc != nil ==> acct.coins[acc] == auth.bal[addr] && acct.addr[acc] == addr && acct.id[acc] == old(acct.next) && acct.next == old(acct.next) + 1
 //@   ensures forall x Iface :: {acct.coins[x]} acct.id[x] < old(acct.next) ==> acct.coins[x] == old(acct.coins[x]) && acct.addr[x] == old(acct.addr[x]) && acct.id[x] == old(acct.id[x])
 //@   ensures acc == nil ==> acct.next == old(acct.next)
+// representation (assumed): records are decoded into pointers (*BaseAccount, *ModuleAccount, ...), never into a
+// ModuleAccount value; a module account stored at a registered module address carries that module's registered
+// permissions (module accounts are created by GetModuleAccountAndPermissions only)
+//@   ensures acc != nil ==> dyntype(acc) != typeid("x/auth/types.ModuleAccount")
+//@   ensures acc != nil ==> (forall m Str, p Str :: {modperm(m, p)} modreg(m) && addr == modaddr(m) ==> acct_perm(acc, p) == modperm(m, p))
 //@
 //@ assumed func (k Keeper) SetAccount(ctx sdk.Ctx, acc exported.Account)
 //@   mode value
@@ -62,7 +67,34 @@ package keeper
 //@   ensures (r == nil) == !modreg(moduleName)
 //@   ensures modreg(moduleName) ==> r == modaddr(moduleName)
 //@
-// GetModuleAccount creates the (empty) module account record on first use; amounts are unchanged.
+// registered modules (k.permAddrs, filled by NewKeeper; assumed): address and permission list of a module
+//@ assumed func (k Keeper) GetModuleAddressAndPermissions(moduleName string) (addr sdk.Address, permissions []string)
+//@   mode value
+//@   ensures (addr == nil) == !modreg(moduleName)
+//@   ensures modreg(moduleName) ==> addr == modaddr(moduleName) && (forall p Str :: {perm_in(permissions, p)} perm_in(permissions, p) == modperm(moduleName, p))
+//@
+// C02 (verified): looking a module account up never changes an AMOUNT: the record is created on first use only when there
+// is no record at the module address (an absent account holds nothing), and a record that is not a module account is left
+// as it is (the caller then gets the unusable zero ModuleAccount{} VALUE, told apart by its dynamic type). Otherwise the
+// object handed out mirrors the stored balance and carries the registered permissions.
+//@ func (k Keeper) GetModuleAccountAndPermissions(ctx sdk.Ctx, moduleName string) (macc exported.ModuleAccountI, perms []string)
+//@   mode value
+//@   props C02
+//@   uses bankinv
+//@   modifies acct.id, acct.next, acct.coins, acct.addr, auth.has[modaddr(moduleName)], auth.bal[modaddr(moduleName)]
+//@   ensures (macc == nil) == !modreg(moduleName)
+//@   ensures [mirror] macc != nil && dyntype(macc) != typeid("x/auth/types.ModuleAccount") ==> acct.coins[macc] == auth.bal[modaddr(moduleName)] && acct.addr[macc] == modaddr(moduleName) && auth.has[modaddr(moduleName)]
+//@   ensures [fresh-object] macc != nil && dyntype(macc) != typeid("x/auth/types.ModuleAccount") ==> acct.id[macc] == old(acct.next) && acct.next == old(acct.next) + 1 && (forall p Str :: acct_perm(macc, p) == modperm(moduleName, p))
+//@   ensures [amounts] forall d Str :: amt(auth.bal[modaddr(moduleName)], d) == amt(old(auth.bal[modaddr(moduleName)]), d)
+//@   ensures [untouched] macc == nil || dyntype(macc) == typeid("x/auth/types.ModuleAccount") ==> auth.has[modaddr(moduleName)] == old(auth.has[modaddr(moduleName)]) && auth.bal[modaddr(moduleName)] == old(auth.bal[modaddr(moduleName)])
+//@   ensures forall x Iface :: {acct.coins[x]} acct.id[x] < old(acct.next) ==> acct.coins[x] == old(acct.coins[x]) && acct.addr[x] == old(acct.addr[x]) && acct.id[x] == old(acct.id[x])
+//@
+// GetModuleAccount = GetModuleAccountAndPermissions (verified above) under ONE remaining assumption, R: the record at a
+// registered module address, if there is one, is a module account. R is what this ASSUMED contract adds (it drops the
+// zero-ModuleAccount case and states the balance as unchanged instead of amount-wise unchanged: a created record is empty
+// where an absent account held nothing). R does not hold for every history of the real code: a plain send to a module
+// address that has no record yet stores a BaseAccount there (DESIGN.md par. 7, seed C02e) - after which the module API
+// errors or panics; amounts are conserved either way, which is what C02 states.
 //@ assumed func (k Keeper) GetModuleAccount(ctx sdk.Ctx, moduleName string) (macc exported.ModuleAccountI)
 //@   mode value
 //@   modifies acct.id, acct.next, acct.coins, acct.addr, auth.has[modaddr(moduleName)]
